@@ -76,6 +76,7 @@ const (
 	CntProbeWaitForReadyBlocked
 	CntProbeOverrunRefused
 	CntProbeDeadlineFired
+	CntSlowCloseCallback
 	numCounters
 )
 
@@ -116,6 +117,7 @@ var CounterNames = [...]string{
 	CntProbeWaitForReadyBlocked:     "probe.wait_for_ready_blocked",
 	CntProbeOverrunRefused:          "probe.overrun_refused",
 	CntProbeDeadlineFired:           "probe.deadline_fired",
+	CntSlowCloseCallback:            "fault.slow_close_callback",
 }
 
 // Frame types.
